@@ -1,0 +1,55 @@
+//go:build verif
+
+// Contracts for server admission, reply skeletons and routing (acceptfunc.go, defaults.go, server.go,
+// serve_mux.go, msg.go setHdr).  Header word (RFC 1035 section 4.1.1): QR(1) OPCODE(4) AA TC RD RA Z AD CD RCODE(4),
+// most significant bit first.  Comment-only file.
+
+package dns
+
+//@ spec hdrbit(bits int, n int) bool = (bits / n) % 2 == 1
+//@ spec hdropcode(bits int) int = (bits / 2048) % 16
+
+// default policy: responses are ignored; only QUERY(0) and NOTIFY(4) are implemented; exactly one question, at
+// most one answer, one authority and two additional records, else FORMERR
+//@ func defaultMsgAcceptFunc [C14]
+//@   ensures qr:    hdrbit(dh.Bits, 32768) ==> ret0 == MsgIgnore
+//@   ensures notimp: !hdrbit(dh.Bits, 32768) && hdropcode(dh.Bits) != 0 && hdropcode(dh.Bits) != 4 ==> ret0 == MsgRejectNotImplemented
+//@   ensures formerr: !hdrbit(dh.Bits, 32768) && (hdropcode(dh.Bits) == 0 || hdropcode(dh.Bits) == 4) && (dh.Qdcount != 1 || dh.Ancount > 1 || dh.Nscount > 1 || dh.Arcount > 2) ==> ret0 == MsgReject
+//@   ensures accept: !hdrbit(dh.Bits, 32768) && (hdropcode(dh.Bits) == 0 || hdropcode(dh.Bits) == 4) && dh.Qdcount == 1 && dh.Ancount <= 1 && dh.Nscount <= 1 && dh.Arcount <= 2 ==> ret0 == MsgAccept
+//@   pure
+
+// header word -> message flags (all 16 bits)
+//@ func (*Msg).setHdr [C14 C01]
+//@   requires dns != nil
+//@   ensures id:  dns.Id == dh.Id
+//@   ensures qr:  dns.Response == hdrbit(dh.Bits, 32768) && dns.Opcode == hdropcode(dh.Bits)
+//@   ensures fl:  dns.Authoritative == hdrbit(dh.Bits, 1024) && dns.Truncated == hdrbit(dh.Bits, 512) && dns.RecursionDesired == hdrbit(dh.Bits, 256) && dns.RecursionAvailable == hdrbit(dh.Bits, 128)
+//@   ensures fl2: dns.Zero == hdrbit(dh.Bits, 64) && dns.AuthenticatedData == hdrbit(dh.Bits, 32) && dns.CheckingDisabled == hdrbit(dh.Bits, 16) && dns.Rcode == dh.Bits % 16
+
+// reply skeletons
+//@ func (*Msg).SetReply [C14]
+//@   requires dns != nil && request != nil
+//@   ensures id:  dns.Id == old(request.Id) && dns.Response && dns.Opcode == old(request.Opcode) && dns.Rcode == 0 && ret0 == dns
+//@   ensures rdcd: old(request.Opcode) == 0 ==> dns.RecursionDesired == old(request.RecursionDesired) && dns.CheckingDisabled == old(request.CheckingDisabled)
+//@   ensures q:   len(old(request.Question)) > 0 ==> len(dns.Question) == 1 && dns.Question[0].Qtype == old(request.Question[0].Qtype) && dns.Question[0].Qclass == old(request.Question[0].Qclass) && same(dns.Question[0].Name, old(request.Question[0].Name))
+//@ func (*Msg).SetRcode [C14]
+//@   requires dns != nil && request != nil
+//@   ensures dns.Id == old(request.Id) && dns.Response && dns.Opcode == old(request.Opcode) && dns.Rcode == rcode && ret0 == dns
+//@   ensures rdcd: old(request.Opcode) == 0 ==> dns.RecursionDesired == old(request.RecursionDesired) && dns.CheckingDisabled == old(request.CheckingDisabled)
+//@ func (*Msg).SetRcodeFormatError [C14]
+//@   requires dns != nil && request != nil
+//@   ensures dns.Id == old(request.Id) && dns.Response && dns.Rcode == 1 && dns.Opcode == 0 && !dns.Authoritative
+
+// routing: the question name is canonicalised (lower case, fully qualified: patterns are registered the same
+// way by Handle), then every suffix that starts on a label boundary is looked up, longest first.
+// For types other than DS the first hit is returned, so no longer suffix was registered; the root pattern is
+// consulted only when the walk found nothing; a DS query keeps walking and ends with the last (shortest) hit.
+//@ func (*ServeMux).match [C14]
+//@   opt opaque = sep nsep escd
+//@   requires mux != nil
+//@   assert at "if t != TypeDS {" hit: maphas(mux.z, q[off:]) && (off == 0 || sep(q, off - 1))
+//@   assert at "if t != TypeDS {" first: t != TypeDS ==> (forall p in 0..off :: (p == 0 || sep(q, p - 1)) ==> !maphas(mux.z, q[p:]))
+//@   loop 1 invariant bnd: 0 <= off && len(q) > 0 && (!end ==> off == 0 || (off <= len(q) - 1 && sep(q, off - 1)))
+//@   loop 1 invariant nomatch: t != TypeDS ==> handler == nil && (forall p in 0..off :: (p == 0 || sep(q, p - 1)) ==> !maphas(mux.z, q[p:]))
+//@   loop 1 decreases end ? 0 : 1
+//@   loop 1 decreases len(q) - off
